@@ -8,8 +8,12 @@
 #include "memwrapper.h"
 void LVCalc(matrix *X, matrix *Y, dvector *t, dvector *u, dvector *p, dvector *q, dvector *w, double *bcoef);
 double calcConvergence(dvector *a, dvector *b){ return 0.0; }
-static double Ycol[HP_N]; static double scale=1.0;
+static double Ycol[HP_N]; static double scale=1.0; static matrix *Ycur;
+#if HP_WHICH==2
+static void loop_head(int site, void *a, void *b, void *c){ dvector *u=a; for(size_t i=0;i<u->size;i++) u->data[i]=Ycur->data[i][0]; }   /* invariant: u = the (deflated) response column */
+#else
 static void loop_head(int site, void *a, void *b, void *c){ dvector *u=a; for(size_t i=0;i<u->size;i++) u->data[i]=scale*Ycol[i]; }   /* invariant: u = response column */
+#endif
 void harness(void){
   lsci_verif_loop_head_cb=loop_head;
   matrix *X,*Y; NewMatrix(&X,HP_N,HP_M); NewMatrix(&Y,HP_N,1); double y2=0;
@@ -21,6 +25,19 @@ void harness(void){
   { double r2=0, tt=0; for(size_t i=0;i<HP_N;i++){ r2+=Y->data[i][0]*Y->data[i][0]; tt+=t->data[i]*t->data[i]; }
     CHECK_EQ(r2, y2-b*b*tt, "RSS after the latent variable = RSS before - b^2 t't");
     CHECK_LE(r2, y2, "adding a latent variable never increases the residual sum of squares"); }
+#elif HP_WHICH==2
+  /* OLS limit: after as many latent variables as X has columns (X of full column rank) the residual response is orthogonal to
+   * every ORIGINAL predictor - the normal equations of ordinary least squares; the fitted part lies in the column space of X by
+   * construction (t = X w on the deflated X), so the PLS fit IS the OLS fit. */
+  double X0[HP_N][HP_M]; for(size_t i=0;i<HP_N;i++)for(size_t j=0;j<HP_M;j++) X0[i][j]=X->data[i][j];
+#if HP_M==1
+  { double xx=0; for(size_t i=0;i<HP_N;i++) xx+=X0[i][0]*X0[i][0]; ASSUME(xx>=1e-4); }
+#else
+  { double a=0,bb=0,cc=0; for(size_t i=0;i<HP_N;i++){ a+=X0[i][0]*X0[i][0]; bb+=X0[i][0]*X0[i][1]; cc+=X0[i][1]*X0[i][1]; } ASSUME(a*cc-bb*bb>=1e-4); }   /* Gram determinant: full column rank */
+#endif
+  Ycur=Y;
+  for(size_t k=0;k<HP_M;k++){ LVCalc(X,Y,t,u,p,q,w,&b); }
+  for(size_t j=0;j<HP_M;j++){ double s=0; for(size_t i=0;i<HP_N;i++) s+=X0[i][j]*Y->data[i][0]; CHECK_EQ(s, 0.0, "with rank(X) latent variables the residual response is orthogonal to every predictor (normal equations: PLS fit = OLS fit)"); }
 #else
   /* equivariance: run the step on y and on c*y (a centred response: d drops out with the centring, C10) */
   matrix *X2,*Y2; NewMatrix(&X2,HP_N,HP_M); NewMatrix(&Y2,HP_N,1); double c=in_double(-100,100); ASSUME(c>=1e-2||c<=-1e-2);
